@@ -169,6 +169,9 @@ func threaded(fn *ssa.Function, v ssa.Value, data ssa.Value, start ssa.Value, bu
 	if c, ok := v.(*ssa.Const); ok && start == nil {
 		return constString(c) == "0"
 	}
+	if b := plusDifference(v); b != nil {
+		return threaded(fn, b, data, start, busy)
+	}
 	switch x := v.(type) {
 	case *ssa.Extract:
 		call, ok := x.Tuple.(*ssa.Call)
@@ -186,6 +189,22 @@ func threaded(fn *ssa.Function, v ssa.Value, data ssa.Value, start ssa.Value, bu
 		return true
 	}
 	return false
+}
+
+// plusDifference: v is a + (b − a) (or (b − a) + a), i.e. b — an offset advanced by "what the
+// element consumed" instead of being replaced by the element's end.  Exact in wrapping
+// arithmetic as well.  Returns b, or nil.
+func plusDifference(v ssa.Value) ssa.Value {
+	add, ok := v.(*ssa.BinOp)
+	if !ok || add.Op != token.ADD {
+		return nil
+	}
+	for _, p := range [][2]ssa.Value{{add.X, add.Y}, {add.Y, add.X}} {
+		if sub, isSub := p[1].(*ssa.BinOp); isSub && sub.Op == token.SUB && sub.Y == p[0] {
+			return sub.X
+		}
+	}
+	return nil
 }
 
 // loopCarried: the offset argument of the recursive call merges exactly the
@@ -213,6 +232,10 @@ func loopCarried(fn *ssa.Function, call *ssa.Call, start ssa.Value) bool {
 			return
 		}
 		leaves[v] = true // (each value once: the walk ends)
+		if b := plusDifference(v); b != nil {
+			walk(b, depth+1)
+			return
+		}
 		switch x := v.(type) {
 		case *ssa.Phi:
 			for _, ed := range x.Edges {
